@@ -157,6 +157,82 @@ func musTrees() [][]musNode {
 	return trees
 }
 
+// musLiteralTrees: literal text around, between and without tags, exhaustively over {x, '{', '}', space} up to
+// length 3 (4 in the thorough tier). Text is rendered verbatim; a single brace is text, two opening braces open
+// a tag. Members whose segmentation the statement does not fix are left out: text containing "{{", text ending
+// in '{' right before a tag ("{" + "{{a}}" reads as a triple-brace opener) and text starting with '}' right
+// after one ("{{a}}" + "}" reads as a triple-brace closer).
+func musLiteralTrees(maxLen int) [][]musNode {
+	var texts []string
+	var gen func(prefix string)
+	gen = func(prefix string) {
+		if prefix != "" && !strings.Contains(prefix, "{{") {
+			texts = append(texts, prefix)
+		}
+		if len(prefix) == maxLen {
+			return
+		}
+		for _, ch := range []string{"x", "{", "}", " "} {
+			gen(prefix + ch)
+		}
+	}
+	gen("")
+	var trees [][]musNode
+	for _, t := range texts {
+		txt := musNode{kind: "text", text: t}
+		before, after := !strings.HasSuffix(t, "{"), !strings.HasPrefix(t, "}")
+		trees = append(trees, []musNode{txt})
+		if before {
+			trees = append(trees, []musNode{txt, {kind: "var", text: "a"}})
+		}
+		if after {
+			trees = append(trees, []musNode{{kind: "var", text: "a"}, txt}, []musNode{{kind: "comment", text: "c"}, txt})
+		}
+		if before && after {
+			trees = append(trees,
+				[]musNode{{kind: "section", text: "a", body: []musNode{txt}}},
+				[]musNode{{kind: "section", text: "b", inverted: true, spelling: 5, body: []musNode{txt}}},
+				[]musNode{txt, {kind: "esc", text: "a"}, txt})
+		}
+	}
+	return trees
+}
+
+// musDefaultMembers: templates naming one variable in lower, upper and mixed case (as a variable, an escaped
+// variable, a section and an inverted section, alone, twice in two spellings, next to another variable) x default
+// variables whose key spells the name in each of the three ways, with a value, an empty value and a value that
+// needs escaping, next to an unrelated key x the order of SetDefaultVariables and SetTemplate.
+type musDefaultMember struct {
+	tree     []musNode
+	defaults map[string]string
+	order    string
+}
+
+func musDefaultMembers() []musDefaultMember {
+	var out []musDefaultMember
+	spell := []string{"name", "NAME", "Name"}
+	for si, n := range spell {
+		n2 := spell[(si+1)%3]
+		trees := [][]musNode{
+			{{kind: "text", text: "<"}, {kind: "var", text: n}, {kind: "text", text: ">"}},
+			{{kind: "esc", text: n}},
+			{{kind: "section", text: n, spelling: si, body: []musNode{{kind: "text", text: "in"}}}, {kind: "section", text: n, inverted: true, spelling: si + 1, body: []musNode{{kind: "text", text: "out"}}}},
+			{{kind: "var", text: n}, {kind: "text", text: " "}, {kind: "var", text: n2}, {kind: "section", text: n2, body: []musNode{{kind: "esc", text: n}}}},
+			{{kind: "var", text: "other"}, {kind: "section", text: "q", inverted: true, body: []musNode{{kind: "var", text: n}}}},
+		}
+		for _, key := range []string{"name", "NAME", "nAmE"} {
+			for _, defaults := range []map[string]string{{key: "v"}, {key: ""}, {key: "a/\"b", "other": "o"}, {"k": "1", key: "v", "z": ""}} {
+				for _, order := range []string{"before", "after", "before2"} {
+					for _, tr := range trees {
+						out = append(out, musDefaultMember{tr, defaults, order})
+					}
+				}
+			}
+		}
+	}
+	return out
+}
+
 var musMalformed = []string{
 	"{{", "{{a", "{{a}", "{{{a}}", "{{a}}}", "{{#a}}", "{{#a}}x", "{{/a}}", "x{{/a}}", "{{#a}}{{/b}}", "{{#a}}{{#b}}{{/a}}{{/b}}", "{{^a}}", "{{#if a}}x", "{{#unless a}}",
 	"{{#a}}x{{/a}", "{{{#a}}}x{{/a}}}", "{{#a}}}x{{/a}}", "{{!c", "{{#a}}{{#b}}x{{/b}}", "{{}}", "{{#}}", "{{/}}", "{{a b}}", "{{#a b}}x{{/a}}", "{{a}}{{", "{{{", "{{#a}}{{/a}}{{/a}}", "x{{/if}}", "{{#a}}b{{/a}}{{/if}}", "{{/unless}}", "text{{/if}}", "Hello{{! note }}}, {{name}}!", "{{{! c }} x {{{a}}}", "{{! c }}}",
@@ -173,11 +249,18 @@ func (c *Ctx) musxRun() map[string]*simpleVerdict {
 		return musxMemo
 	}
 	trees := musTrees()
+	// the literal-text family is rendered with the first two variable maps only
+	nFull := len(trees)
+	if c.Tier == "thorough" {
+		trees = append(trees, musLiteralTrees(4)...)
+	} else {
+		trees = append(trees, musLiteralTrees(3)...)
+	}
 	varSets := []map[string]string{
 		{}, {"a": "v"}, {"a": ""}, {"b": "w"}, {"a": "v", "b": "w"}, {"a": "v", "b": ""}, {"A": "Up"}, {"a": "<&\"/\\\n\t>"}, {"B": "x\r\b\f", "a": "ж"}, {"a": "{{b}}", "b": "1"}, {"x_1": "X", "if1": "I"}, {"if": "yes", "unless": ""}, {"unless": "u", "a": "v"}, {"USERNAME": "U1", "aB": "v2"}, {"Username": "U2", "AB": "v3"}, {"username": "U3", "ab": "v4"},
 		{"a": " ", "b": "\n"}, {"a": "\t\r\n", "B": "\u00a0"}, {"a": "\u2003", "b": " x "},
 	}
-	res := map[string]*simpleVerdict{"render": {}, "reject": {}, "unchanged": {}, "repeat": {}}
+	res := map[string]*simpleVerdict{"render": {}, "reject": {}, "unchanged": {}, "repeat": {}, "defaults": {}}
 	var mu sync.Mutex
 	ctor := c.MustFunc("mustache", "", "NewMustacheTemplate")
 	tt := ctor.Signature.Results().At(0).Type()
@@ -187,10 +270,10 @@ func (c *Ctx) musxRun() map[string]*simpleVerdict {
 		wg.Add(1)
 		go func(w int) {
 			defer wg.Done()
-			vr, vj, vu, vp := &simpleVerdict{}, &simpleVerdict{}, &simpleVerdict{}, &simpleVerdict{}
+			vr, vj, vu, vp, vd := &simpleVerdict{}, &simpleVerdict{}, &simpleVerdict{}, &simpleVerdict{}, &simpleVerdict{}
 			defer func() {
 				mu.Lock()
-				for k, v := range map[string]*simpleVerdict{"render": vr, "reject": vj, "unchanged": vu, "repeat": vp} {
+				for k, v := range map[string]*simpleVerdict{"render": vr, "reject": vj, "unchanged": vu, "repeat": vp, "defaults": vd} {
 					t := res[k]
 					t.runs += v.runs
 					if v.bad != "" && (t.bad == "" || len(v.bad) < len(t.bad)) {
@@ -253,7 +336,11 @@ func (c *Ctx) musxRun() map[string]*simpleVerdict {
 				}
 				instBefore := mFieldFingerprints(tmpl)
 				firstResults := map[int]string{}
-				for vi, vars := range varSets {
+				sets := varSets
+				if i >= nFull {
+					sets = varSets[:2]
+				}
+				for vi, vars := range sets {
 					m.steps = 0
 					vr.runs++
 					given := mkMap(vars)
@@ -351,6 +438,109 @@ func (c *Ctx) musxRun() map[string]*simpleVerdict {
 					vp.bad = fmt.Sprintf("%s: rendering writes the template instance (state reachable from its field %s differs afterwards): the compiled template is modified, concurrent renderings race on it", show, strings.Join(ch, ", "))
 				}
 			}
+			// default variables: a template rendered with Evaluate() uses the instance's default variables, names matched
+			// case-insensitively whatever the spelling of the key, whether the defaults were assigned before or after
+			// the template (or before, with another template set in between) - and whatever order the map is iterated
+			// in: Go fixes none, so every rendering is run under the map's order and under the reverse
+			for di, dm := range musDefaultMembers() {
+				if di%nw != w {
+					continue
+				}
+				src := musPrint(dm.tree)
+				m.steps = 0
+				ti, out := m.Call(ctor)
+				if out.kind != "ok" {
+					vd.undec = "NewMustacheTemplate: " + out.why
+					break
+				}
+				given := mkMap(dm.defaults)
+				var e mv
+				switch dm.order {
+				case "before":
+					_, out = m.Call(setDef, ti, given)
+					if out.kind == "ok" {
+						e, out = m.Call(set, ti, src)
+					}
+				case "after":
+					e, out = m.Call(set, ti, src)
+					if out.kind == "ok" {
+						_, out = m.Call(setDef, ti, given)
+					}
+				default: // before, and another template first
+					_, out = m.Call(setDef, ti, given)
+					if out.kind == "ok" {
+						_, out = m.Call(set, ti, "{{other}} {{#z}}.{{/z}}")
+					}
+					if out.kind == "ok" {
+						e, out = m.Call(set, ti, src)
+					}
+				}
+				show := fmt.Sprintf("template %q on an instance whose default variables %q were assigned %s", src, dm.defaults, map[string]string{"before": "before SetTemplate", "after": "after SetTemplate", "before2": "before SetTemplate(\"{{other}} {{#z}}.{{/z}}\") and SetTemplate of this one"}[dm.order])
+				if di%97 == 0 {
+					noteSample("MUS.reference/default-variables", show)
+				}
+				if out.kind == "panic" {
+					vd.bad = show + ": panics: " + out.why
+					continue
+				}
+				if out.kind != "ok" {
+					vd.undec = show + ": " + out.why
+					continue
+				}
+				if _, isNil := e.(mNilT); !isNil {
+					if vd.bad == "" {
+						vd.bad = fmt.Sprintf("%s is well-formed but rejected with %s", show, errorCode(e))
+					}
+					continue
+				}
+				want := musRender(dm.tree, dm.defaults)
+				evalDef := c.lookupMethod(tt, "Evaluate")
+				for pass := 0; pass < 2; pass++ {
+					orderText := ""
+					if pass == 1 {
+						// the other iteration order of the instance's default-variables map
+						dv, out := m.Call(getDef, ti)
+						cur, ok := dv.(*mMap)
+						if out.kind != "ok" || !ok || cur == nil || len(cur.keys) < 2 {
+							break
+						}
+						var names []string
+						for l, r := 0, len(cur.keys)-1; l < r; l, r = l+1, r-1 {
+							cur.keys[l], cur.keys[r] = cur.keys[r], cur.keys[l]
+						}
+						for _, ks := range cur.keys {
+							names = append(names, mRender(cur.k[ks]))
+						}
+						orderText = " (the map of default variables iterated in the order " + strings.Join(names, ", ") + ")"
+					}
+					m.steps = 0
+					vd.runs++
+					r, out := m.Call(evalDef, ti)
+					if out.kind == "panic" {
+						vd.bad = fmt.Sprintf("%s: Evaluate() panics: %s", show, out.why)
+						break
+					}
+					tp, ok := r.(mTuple)
+					if out.kind != "ok" || !ok {
+						vd.undec = fmt.Sprintf("%s: Evaluate(): %s", show, out.why)
+						break
+					}
+					if _, isNil := tp[1].(mNilT); !isNil {
+						if vd.bad == "" {
+							vd.bad = fmt.Sprintf("%s: Evaluate() fails with %s", show, errorCode(tp[1]))
+						}
+						break
+					}
+					got, ok := tp[0].(string)
+					if !ok {
+						vd.undec = fmt.Sprintf("%s: Evaluate() renders %s", show, catRender(tp[0]))
+						break
+					}
+					if got != want && vd.bad == "" {
+						vd.bad = fmt.Sprintf("%s, rendered with Evaluate()%s, gives %q; with names matched case-insensitively against the default variables it is %q", show, orderText, got, want)
+					}
+				}
+			}
 			for i := w; i < len(musMalformed); i += nw {
 				src := musMalformed[i]
 				m.steps = 0
@@ -386,12 +576,13 @@ func (c *Ctx) musxRun() map[string]*simpleVerdict {
 
 func init() {
 	register(&Rule{ID: "MUS.reference", Floor: 3,
-		Doc: "the template engine evaluated abstractly (NewMustacheTemplate, SetTemplate, EvaluateWithVariables) on templates printed from generated syntax trees (text with braces/quotes, variables, escaped variables, comments, sections and inverted sections in 8 spellings each, nested, empty, adjacent) × 19 variable maps (present, empty, white-space-only, absent, other key case, values needing escapes): the rendering equals the statement's semantics, is the same when repeated after other variable sets and leaves the instance unchanged; 39 malformed templates are rejected, also when submitted twice",
+		Doc: "the template engine evaluated abstractly (NewMustacheTemplate, SetTemplate, EvaluateWithVariables) on templates printed from generated syntax trees (text with braces/quotes, variables, escaped variables, comments, sections and inverted sections in 8 spellings each, nested, empty, adjacent) × 19 variable maps (present, empty, white-space-only, absent, other key case, values needing escapes): the rendering equals the statement's semantics, is the same when repeated after other variable sets and leaves the instance unchanged; literal text exhaustively over {x, '{', '}', space} up to length 3 (4 in the thorough tier) alone, before and after a tag, between tags and as a section body is rendered verbatim (single braces at the start, in the middle and at the very end); instances with default variables assigned before or after the template (keys in lower, upper and mixed case against the template's spelling), rendered with Evaluate() under both iteration orders of the map, follow the same semantics; 39 malformed templates are rejected, also when submitted twice",
 		Run: func(c *Ctx) []*Obligation {
 			o := newObl("MUS.reference")
 			res := c.musxRun()
 			pos := c.Pos(c.MustFunc("mustache", "", "NewMustacheTemplate").Pos())
 			o.list = append(o.list, emitSimple(c, "MUS.reference", "mustache.MustacheTemplate#renders-reference-semantics", pos, res["render"], "renderings equal the reference semantics")...)
+			o.list = append(o.list, emitSimple(c, "MUS.reference", "mustache.MustacheTemplate#renders-default-variables", pos, res["defaults"], "renderings with the instance's default variables equal the reference semantics under either iteration order of the map")...)
 			o.list = append(o.list, emitSimple(c, "MUS.reference", "mustache.MustacheTemplate#rejects-malformed", pos, res["reject"], "malformed templates are rejected")...)
 			o.list = append(o.list, emitSimple(c, "MUS.reference", "mustache.MustacheTemplate#leaves-variables-unchanged", pos, res["unchanged"], "renderings leave the caller's variable map unchanged")...)
 			o.list = append(o.list, emitSimple(c, "MUS.reference", "mustache.MustacheTemplate#renders-repeatably", pos, res["repeat"], "repeated renderings agree and leave the template instance unchanged")...)
